@@ -312,11 +312,18 @@ theorem percent_eq (c : Cfg) (hg : c.Good) (b : Supply) (now full : Option MVal)
 
 /-- **the battery function refines its specification** -/
 theorem battery_refines (c : Cfg) (hg : c.Good) (p : PowerTree) (v : Option BatOut)
+    (hdir : c.noDirNone = true ∨ p.dirExists = true)
     (h : battery p = some v) : sensorsBattery c p = .ok v := by
   unfold battery at h
   unfold sensorsBattery
   cases hd : p.dirExists with
-  | false => simp [hd] at h
+  | false =>
+    have hn : c.noDirNone = true := by
+      rcases hdir with h' | h'
+      · exact h'
+      · rw [hd] at h'; cases h'
+    simp only [hd, Bool.not_false, if_true, Option.some.injEq] at h
+    simp [hn, ← h]
   | true =>
     simp only [hd, Bool.not_true, Bool.false_eq_true, if_false] at h ⊢
     cases hn : (p.supplies.map (·.name)).filter (isBattery c) with
@@ -352,6 +359,9 @@ theorem battery_refines (c : Cfg) (hg : c.Good) (p : PowerTree) (v : Option BatO
           | none => simp only [resOpt] at h; simp only; rw [← Option.some.inj h]
           | some pc =>
             simp only [resOpt] at h
+            by_cases hac : acOnline p.supplies = some none
+            · simp [hac] at h
+            simp only [hac, if_false] at h
             simp only
             rw [secsleft_eq c hg _ x1 x2 x4 g1 g2 g4]
             simp only
